@@ -11,6 +11,7 @@ import YalafiVerif.Model.Expander
 import YalafiVerif.Proofs.InlineShape
 import YalafiVerif.Proofs.PlainMath
 import YalafiVerif.Generated.Init
+import YalafiVerif.Properties.PlainMathRichStmt
 namespace Yalafi
 
 theorem C10_rot_length (l : List Str) : (rotL l).length = l.length := by
